@@ -426,7 +426,7 @@ pub fn execute(ctx: &Ctx, scv: &serde_json::Value, rd: &RunDir, stats: &mut Stat
     };
     let doc_s = String::from_utf8_lossy(&doc).to_string();
     stats.bump("documents");
-    stats.event(format!("producer kind={} argv={:?} now={t0} doc={}", sc.kind, sc.argv, norm(ctx, &short(&doc_s, 3000))));
+    stats.event(format!("producer kind={} argv={:?} now={t0} doc={}", sc.kind, sc.argv, short(&norm(ctx, &doc_s), 3000)));
     let parsed = zron::parse(&doc_s);
     let dirty = parsed.as_ref().map(|d| d.vars.dirty == Some(true)).unwrap_or(false);
     let nondefault = parsed
